@@ -163,9 +163,19 @@ def run(ctx):
     ctx.log("part A: %d cases, %d instantiations executed (%d calls), not compared: %s" % (total_cases, total_runs, total_steps, skipped))
 
     ntr, nops = RECORD[tier]
-    trace, nev, ok, bad, why = record_and_validate(ctx, binary, ntr, nops, ctx.seed, "rec")
+    try:
+        trace, nev, ok, bad, why = record_and_validate(ctx, binary, ntr, nops, ctx.seed, "rec")
+    except vlib.Infra as e:
+        # a library that already broke the contract in the replay can drive the recorder's bookkeeping off the
+        # constrained calls (Legal assertion of the trace specification): the replay verdicts stand
+        if not ctx.violations:
+            raise
+        ctx.log("recorded histories not validated: %s" % str(e)[:200])
+        trace, nev, ok, bad, why = None, 0, None, None, None
     ctx.log("recorded %d events in %d histories: %s" % (nev, ntr, "accepted" if ok else "REJECTED at %s (%s)" % (bad, why)))
-    if ok:
+    if ok is None:
+        pass
+    elif ok:
         ctx.traces += ntr
         events = vlib.read_ndjson(trace, limit=400)
         ctx.sample({"recorded_event": {k: events[3][k] for k in ("e", "st", "inst", "res")}})
